@@ -1,7 +1,7 @@
 #!/bin/bash
 # tools/matrix_some.sh <name> ... : the mutant_matrix line for the named seeded changes (e.g. C03_l C11_k)
 cd /verif
-for name in "$@"; do echo "$name ${name%_*}"; done | xargs -P 4 -L 1 bash -c '
+for name in "$@"; do echo "$name ${name%_*}"; done | xargs -P ${MM_PAR:-4} -L 1 bash -c '
   name=$0; id=$1; wt=/tmp/mm_$name
   git -C /repo worktree add --detach $wt HEAD >/dev/null 2>&1
   if ! git -C $wt apply /verif/seeded/$name/patch.diff 2>/dev/null; then echo "$name APPLY-FAILED"; git -C /repo worktree remove --force $wt; exit 0; fi
